@@ -320,7 +320,14 @@ def run_getvalues_consumption(rep, facts):
         incomplete = None
         for (e, lab) in nonconst_conds(r):
             fact = ir.cmp_fact(e, lab)
-            if fact is not None and fact[0] in ('lt', 'le') and is_len_of(fact[1] if fact[0] == 'lt' else fact[2], lambda x: is_param(x, 'data')) \
+
+            def avail(x):
+                # data.len(), or min(data.len(), payload_rem) (which is < payload_rem exactly when data.len() is)
+                x = ir.peel(x)
+                if x[0] == 'call' and x[1].endswith("::min") and len(x[2]) == 2:
+                    return any(is_len_of(a_, lambda y: is_param(y, 'data')) for a_ in x[2])
+                return is_len_of(x, lambda y: is_param(y, 'data'))
+            if fact is not None and fact[0] in ('lt', 'le') and avail(fact[1] if fact[0] == 'lt' else fact[2]) \
                     and self_field(fact[2] if fact[0] == 'lt' else fact[1], 'payload_rem'):
                 incomplete = (fact[0] == 'lt')      # data.len() < payload_rem   /  payload_rem <= data.len()
         if incomplete is not True:
